@@ -387,6 +387,19 @@ if detect_legacy_windows():  # pragma: no cover
     init()
 
 
+class NewLine:
+    """A renderable that writes new line(s): blank lines printed this way pass through the render hooks
+    (a live display is moved down) like any other printed line."""
+
+    def __init__(self, count: int = 1) -> None:
+        self.count = count
+
+    def __rich_console__(
+        self, console: "Console", options: "ConsoleOptions"
+    ) -> Iterable[Segment]:
+        yield Segment("\n" * self.count)
+
+
 class Console:
     """A high level console interface.
 
@@ -1188,8 +1201,7 @@ class Console:
                 Console default. Defaults to ``None``.
         """
         if not objects:
-            self.line()
-            return
+            objects = (NewLine(),)
 
         if soft_wrap is None:
             soft_wrap = self.soft_wrap
@@ -1299,7 +1311,7 @@ class Console:
             _stack_offset (int, optional): Offset of caller from end of call stack. Defaults to 1.
         """
         if not objects:
-            self.line()
+            self.print()
             return
         with self:
             renderables = self._collect_renderables(
